@@ -175,8 +175,8 @@ pub fn osu_perf(c: &Case, fields: &[Option<u32>]) -> OsuPerformance<'static> {
     p
 }
 
-pub fn taiko_perf(c: &Case, fields: &[Option<u32>]) -> TaikoPerformance<'static> {
-    let attrs = TaikoDifficultyAttributes {
+pub fn taiko_attrs(c: &Case) -> TaikoDifficultyAttributes {
+    TaikoDifficultyAttributes {
         max_combo: c.attrs[0],
         stamina: 2.1,
         rhythm: 0.9,
@@ -187,8 +187,11 @@ pub fn taiko_perf(c: &Case, fields: &[Option<u32>]) -> TaikoPerformance<'static>
         mono_stamina_factor: 0.4,
         stars: 4.2,
         ..Default::default()
-    };
-    let mut p = TaikoPerformance::new(attrs).difficulty(difficulty_of(c).0).hitresult_priority(prio(c));
+    }
+}
+
+pub fn taiko_perf(c: &Case, fields: &[Option<u32>]) -> TaikoPerformance<'static> {
+    let mut p = TaikoPerformance::new(taiko_attrs(c)).difficulty(difficulty_of(c).0).hitresult_priority(prio(c));
     if let Some(a) = c.acc {
         p = p.accuracy(a);
     }
@@ -200,16 +203,19 @@ pub fn taiko_perf(c: &Case, fields: &[Option<u32>]) -> TaikoPerformance<'static>
     p
 }
 
-pub fn catch_perf(c: &Case, fields: &[Option<u32>]) -> CatchPerformance<'static> {
-    let attrs = CatchDifficultyAttributes {
+pub fn catch_attrs(c: &Case) -> CatchDifficultyAttributes {
+    CatchDifficultyAttributes {
         n_fruits: c.attrs[0],
         n_droplets: c.attrs[1],
         n_tiny_droplets: c.attrs[2],
         stars: 4.1,
         ar: 9.0,
         ..Default::default()
-    };
-    let mut p = CatchPerformance::new(attrs).difficulty(difficulty_of(c).0);
+    }
+}
+
+pub fn catch_perf(c: &Case, fields: &[Option<u32>]) -> CatchPerformance<'static> {
+    let mut p = CatchPerformance::new(catch_attrs(c)).difficulty(difficulty_of(c).0);
     if let Some(a) = c.acc {
         p = p.accuracy(a);
     }
@@ -223,15 +229,18 @@ pub fn catch_perf(c: &Case, fields: &[Option<u32>]) -> CatchPerformance<'static>
     p
 }
 
-pub fn mania_perf(c: &Case, fields: &[Option<u32>]) -> ManiaPerformance<'static> {
-    let attrs = ManiaDifficultyAttributes {
+pub fn mania_attrs(c: &Case) -> ManiaDifficultyAttributes {
+    ManiaDifficultyAttributes {
         n_objects: c.attrs[0],
         n_hold_notes: c.attrs[1],
         max_combo: c.attrs[0] + c.attrs[1],
         stars: 4.3,
         ..Default::default()
-    };
-    let mut p = ManiaPerformance::new(attrs).difficulty(difficulty_of(c).0).hitresult_priority(prio(c));
+    }
+}
+
+pub fn mania_perf(c: &Case, fields: &[Option<u32>]) -> ManiaPerformance<'static> {
+    let mut p = ManiaPerformance::new(mania_attrs(c)).difficulty(difficulty_of(c).0).hitresult_priority(prio(c));
     if let Some(a) = c.acc {
         p = p.accuracy(a);
     }
@@ -625,6 +634,141 @@ pub fn corr_line(run: &mut Run, id: &str, c: &Case, d: Derived, o: &Obs) {
         Err(_) => "PANIC".to_owned(),
     };
     run.line(id, request_line(c, d), observed);
+}
+
+// ---------------------------------------------------------------------------------------------
+// FP lines: builder inputs -> pp outputs of `calculate()` (Model/FullPerf.lean)
+
+fn fp_hex(v: f64) -> String {
+    format!("{:016x}", v.to_bits())
+}
+
+fn fp_show(v: f64) -> String {
+    if v.is_nan() {
+        "nan".into()
+    } else {
+        format!("b:{:016x}", v.to_bits())
+    }
+}
+
+fn fp_opt(v: Option<f64>) -> String {
+    v.map_or_else(|| "none".into(), fp_show)
+}
+
+/// `FP …` correspondence line: the attribute record, the settings and the *builder inputs* (not a
+/// state) against the pp outputs of the real `calculate()`.  `None` when the case is not compared
+/// (osu!: `attrs.max_combo - n_slider_ends_dropped` underflows for inconsistent attributes — a debug
+/// build panics, a release build wraps; the model's `…Dom` flags it).
+pub fn fp_line(run: &mut Run, id: &str, c: &Case, d: Derived, o: &Obs) {
+    let flags = rosu_pp::verif::mods_snapshot(&mods_of(c.mode, c.origin).0).flags;
+    let bit = |x: bool| if x { '1' } else { '0' };
+    let acc = c.acc.map_or_else(|| "-".to_owned(), |a| fp_hex(stored_acc(a)));
+    let pr = if c.worst { "W" } else { "B" };
+    let fields: Vec<String> = c.fields.iter().map(|f| opt(*f)).collect();
+    let fields = fields.join(" ");
+    let panicked = |r: &Result<String, String>| r.as_ref().err().is_some_and(|e| e.starts_with("panic:"));
+    let name = MODE_NAMES[c.mode as usize];
+    // `total_hits()` of the score states is a plain u32 sum.  catch's `generate_state` keeps provided
+    // tiny_droplets / tiny_droplet_misses beyond the map's count (C12: "kept whenever they fit" only), so
+    // e.g. `.tiny_droplets(u32::MAX).tiny_droplet_misses(1)` makes `total_hits()` overflow inside
+    // `calculate()`: debug panic / release wrap (the pp model counts in Nat: stated assumption of C09).
+    // Counted, reported (docs/delivery-PP.md), not compared.
+    if let Ok(s) = &o.s1 {
+        let from = if c.mode == MANIA { 0 } else if c.mode == OSU { 4 } else { 1 };
+        let total: u64 = s[from..].iter().map(|&v| u64::from(v)).sum();
+        if total > u64::from(u32::MAX) {
+            run.count(&format!("FP-{name}: skipped, total_hits() of the generated state overflows u32 (provided results beyond the map's count are kept)"));
+            return;
+        }
+    }
+    let (req, obs): (String, Result<String, String>) = match c.mode {
+        OSU => {
+            let a = osu_attrs(c);
+            if let Ok(s) = &o.s1 {
+                if a.n_sliders > 0 && !d.nsha && a.n_sliders - s[3].min(a.n_sliders) > a.max_combo {
+                    run.count("FP-osu: skipped, inconsistent attributes (max_combo < dropped slider ends: u32 underflow)");
+                    return;
+                }
+            }
+            let fs = [
+                a.aim, a.aim_difficult_slider_count, a.speed, a.flashlight, a.slider_factor, a.speed_note_count,
+                a.aim_difficult_strain_count, a.speed_difficult_strain_count, a.ar, a.great_hit_window,
+                a.ok_hit_window, a.meh_hit_window, a.hp,
+            ];
+            let fs: Vec<String> = fs.iter().map(|v| fp_hex(*v)).collect();
+            // nf so rx ap bl hd tc fl
+            let ms: String = [flags[0], flags[7], flags[5], flags[8], flags[9], flags[3], flags[13], flags[6]]
+                .iter().map(|x| bit(*x)).collect();
+            let req = format!(
+                "FP osu {} {},{},{},{},{} {} {} {} {} {} {} {}",
+                fs.join(","), a.n_circles, a.n_sliders, a.n_large_ticks, a.n_spinners, a.max_combo, ms,
+                opt(c.passed), u8::from(d.lazer), u8::from(d.nsha), pr, acc, fields
+            );
+            let obs = flat(guarded(|| osu_perf(c, &c.fields).calculate())).map(|p| {
+                format!(
+                    "pp={} acc={} aim={} fl={} speed={} emc={} sd={}",
+                    fp_show(p.pp), fp_show(p.pp_acc), fp_show(p.pp_aim), fp_show(p.pp_flashlight),
+                    fp_show(p.pp_speed), fp_show(p.effective_miss_count), fp_opt(p.speed_deviation)
+                )
+            });
+            (req, obs)
+        }
+        TAIKO => {
+            let r = flat(guarded(|| taiko_perf(c, &c.fields).calculate()));
+            let a = taiko_attrs(c);
+            // hd ez fl
+            let ms: String = [flags[3], flags[1], flags[6]].iter().map(|x| bit(*x)).collect();
+            let req = format!(
+                "FP taiko {},{},{} {},{} {} {} {} {} {}",
+                fp_hex(a.great_hit_window), fp_hex(a.mono_stamina_factor), fp_hex(a.stars), a.max_combo,
+                u8::from(a.is_convert), ms, opt(c.passed), pr, acc, fields
+            );
+            let obs = r.map(|p| {
+                format!(
+                    "pp={} acc={} diff={} emc={} eur={}",
+                    fp_show(p.pp), fp_show(p.pp_acc), fp_show(p.pp_difficulty), fp_show(p.effective_miss_count),
+                    fp_opt(p.estimated_unstable_rate)
+                )
+            });
+            (req, obs)
+        }
+        CATCH => {
+            let r = flat(guarded(|| catch_perf(c, &c.fields).calculate()));
+            let a = catch_attrs(c);
+            // hd fl nf
+            let ms: String = [flags[3], flags[6], flags[0]].iter().map(|x| bit(*x)).collect();
+            let req = format!(
+                "FP catch {},{} {},{},{} {} {} {}",
+                fp_hex(a.stars), fp_hex(a.ar), a.n_fruits, a.n_droplets, a.n_tiny_droplets, ms, acc, fields
+            );
+            (req, r.map(|p| format!("pp={}", fp_show(p.pp))))
+        }
+        _ => {
+            let r = flat(guarded(|| mania_perf(c, &c.fields).calculate()));
+            let a = mania_attrs(c);
+            // nf ez
+            let ms: String = [flags[0], flags[1]].iter().map(|x| bit(*x)).collect();
+            let req = format!(
+                "FP mania {} {},{} {} {} {} {} {} {}",
+                fp_hex(a.stars), a.n_objects, a.n_hold_notes, ms, opt(c.passed), u8::from(!d.lazer || d.cl), pr, acc,
+                fields
+            );
+            (req, r.map(|p| format!("pp={} diff={}", fp_show(p.pp), fp_show(p.pp_difficulty))))
+        }
+    };
+    let observed = if panicked(&obs) {
+        "PANIC".to_owned()
+    } else {
+        match obs {
+            Ok(s) => s,
+            Err(e) => e,
+        }
+    };
+    run.count(&format!("lines:FP-{name}"));
+    if o.s1.is_err() {
+        run.count(&format!("FP-{name}: generate_state fails (compared: PANIC)"));
+    }
+    run.line(id, req, observed);
 }
 
 // ---------------------------------------------------------------------------------------------
